@@ -860,6 +860,9 @@ func (w *dqW) step(phase, k int) {
 			}
 		}
 	}
+	if (op == dqPopFront || op == dqPopBack) && w.m.n() == 0 {
+		op = -1 // a drain that has reached the bottom: do not spend the phase on empty pops
+	}
 	if op < 0 {
 		op = r.Choose(dqNumMutatorOps, "op")
 	}
